@@ -22,4 +22,4 @@ Your task: produce up to THREE different, realistic changes to the library's non
   4. the breakage needs something specific to manifest — a particular unusual input, a multi-step sequence of operations, a particular interleaving, a crash or fault at a particular point, or two cooperating sites that each look fine alone — NOT something ordinary use or a casual smoke test would expose at once. Think of the kind of plausible bug a maintainer could introduce in a refactoring or "optimisation" and that code review could miss. Do not merely revert the most recent commits wholesale; subtle variants are welcome.
 For each change also write a demonstration: a Go test file (or a small Go program) that FAILS with the change applied and PASSES on the unchanged HEAD, showing concretely that the property is violated (print the failing input / schedule / history).
 
-Deliverables, in the directory {wt}/../out-{pid}/ (create it): for k = 1..3: `m<k>.diff` (output of `git diff` for that change alone, applicable with `git apply` to a clean HEAD), `m<k>_demo_test.go` (or `m<k>_demo/main.go`) plus a line in `README.md` saying into which package directory the demo file must be copied and the exact command to run it, what the change does, what it needs in order to manifest, and the observed failing output. Verify each one yourself from a clean state: `git stash`/`git checkout -- .` → demo passes; `git apply m<k>.diff` → build ok, `go test` of the affected packages ok, demo fails. Leave the worktree clean (`git checkout -- . && git clean -fd`) when done. Final answer: a short summary of the three changes (one paragraph each).""")
+Deliverables, in the directory {wt}/../out-{pid}/ (create it): for k = 1..3: `m<k>.diff` (output of `git diff` for that change alone, applicable with `git apply` to a clean HEAD), `m<k>_demo_test.go` (or `m<k>_demo/main.go`) plus a line in `README.md` saying into which package directory the demo file must be copied and the exact command to run it, what the change does, what it needs in order to manifest, and the observed failing output. Verify each one yourself from a clean state: `git checkout -- .` (never use `git stash`: it is shared between worktrees) → demo passes; `git apply m<k>.diff` → build ok, `go test` of the affected packages ok, demo fails. Leave the worktree clean (`git checkout -- . && git clean -fd`) when done. Final answer: a short summary of the three changes (one paragraph each).""")
